@@ -1,7 +1,82 @@
 import ComposeVerif.Ops.Common
-/-! line-protocol ops for C06 (filled in by the property's owner) -/
+import ComposeVerif.Model.Include
+import ComposeVerif.Model.IncludePipe
+/-! line-protocol ops for C06: `applyInclude`, `importResources`, `includeConfig`, `fpath` -/
+open Lean
 namespace CV.Ops.C06
+open CV CV.Include
 
-def handlers : List (String × Handler) := []
+def outJson {α} (f : α → Json) : Out α → Json
+  | .ok a => Json.mkObj [("ok", f a)]
+  | .err e => Json.mkObj [("err", e)]
+  | .panic s =>
+    -- the harness names a panic by the innermost compose-go function on the stack
+    Json.mkObj [("panic", if s.startsWith "importResource" then "loader.importResource" else s)]
+
+def kvsJson (m : Val.KVs) : Json := Val.toJson (.map m)
+
+def valOf (j : Json) : Val := match Val.ofJson j with | .ok v => v | .error _ => .null
+
+def objEntries (j : Json) (k : String) : List (String × Json) :=
+  match j.getObjVal? k with
+  | .ok (.obj o) => o.toList
+  | _ => []
+
+def arrOf (j : Json) : List Json := match j with | .arr a => a.toList | _ => []
+
+partial def ancestors (p : String) : List String :=
+  let d := dir p
+  if d = p ∨ d = "." then [p] else p :: ancestors d
+
+def fsOf (args : Json) : FSData :=
+  let docs := (objEntries args "docs").map fun (p, v) => (p, (arrOf v).map valOf)
+  let envs := (objEntries args "envs").map fun (p, v) =>
+    (p, (arrOf v).filterMap fun e => match e with
+      | .arr #[.str k, .str t] => some (k, t)
+      | _ => none)
+  let extra := (getStrList args "dirs").map fun d => "/ROOT/" ++ d
+  let files := docs.map (·.1) ++ envs.map (·.1)
+  let dirs := (files.flatMap fun f => ancestors (dir f)) ++ (extra.flatMap ancestors) ++ ["/ROOT", "/CWD", "/"]
+  { cwd := "/CWD", dirs := dirs.eraseDups, docs := docs, envs := envs }
+
+def envOf (args : Json) (k : String) : Env := getStrMap args k
+
+/-- `loader.ApplyInclude` on a directory tree -/
+def applyIncludeOp : Handler := fun args =>
+  let D := fsOf args
+  let fuel := D.docs.length + 2
+  match valOf (getObj args "model") with
+  | .map model =>
+    outJson kvsJson (applyInclude (world D fuel) (getStr args "wd") (getStr args "lwd") (envOf args "env")
+      (getStrList args "chain") (sortKVs' model))
+  | _ => Json.mkObj [("bad", "model")]
+
+/-- `importResources(source, target)` -/
+def importResourcesOp : Handler := fun args =>
+  match valOf (getObj args "source"), valOf (getObj args "target") with
+  | .map s, .map t => outJson kvsJson (importResources s t)
+  | _, _ => Json.mkObj [("bad", "args")]
+
+def cfgJson (c : IncCfg) : Json :=
+  Json.mkObj [("path", Json.arr (c.path.map Json.str).toArray), ("project_directory", c.projectDirectory),
+    ("env_file", Json.arr (c.envFile.map Json.str).toArray)]
+
+/-- `loadIncludeConfig(source)` -/
+def includeConfigOp : Handler := fun args =>
+  let src := match args.getObjVal? "source" with
+    | .ok j => if getBool args "absent" then none else some (valOf j)
+    | .error _ => none
+  outJson (fun l => Json.arr (l.map cfgJson).toArray) (loadIncludeConfig src)
+
+/-- `filepath.Clean/Join/Dir/Rel/IsAbs` -/
+def fpathOp : Handler := fun args =>
+  let a := getStr args "a"
+  let b := getStr args "b"
+  Json.mkObj [("clean", clean a), ("join", join a b), ("dir", dir a), ("abs", Json.bool (isAbs a)),
+    ("rel", match rel a b with | some r => Json.str r | none => Json.null)]
+
+def handlers : List (String × Handler) :=
+  [("applyInclude", applyIncludeOp), ("importResources", importResourcesOp),
+   ("includeConfig", includeConfigOp), ("fpath", fpathOp)]
 
 end CV.Ops.C06
